@@ -45,10 +45,11 @@ def env_unit(u) -> Stats:
     fresh environment that revealed the same set in ascending order."""
     _, n, tag, v, comp, gap_name = u[:6]
     known_extra = u[6] if len(u) > 6 else ()
+    depth = u[7] if len(u) > 7 else None
     from ..envmodel import EnvCfg, explore_env
     st = Stats()
     cfg = EnvCfg(n, [v], comp, gap_name, None, tag, 0.0, known_extra)
-    explore_env(st, cfg, "differential", with_reset=True)
+    explore_env(st, cfg, "differential", max_depth=depth, with_reset=True)
     if n == 3 and gap_name == "l2_norm" and comp == "superadditive":
         st.sample({"env_ops": ["step(a)", "unstep(a) for any revealed a", "reset"], "n": n, "values": list(v), "computer": comp, "gap": gap_name,
                    "model_states": st.counters.get("env_model_states")})
@@ -135,6 +136,18 @@ def units(run: Run):
         for comp in ("superadditive", "superadditive_cached", "sam_apx_1"):
             for gap_name in gaps.NAMES:
                 us.append(("env", 3, f"shift#{i}", gv, comp, gap_name))
+    # hidden games of ANY class (a mis-specified game class must still give path-independent observables), tie-heavy integers
+    nonsa3 = [g for g in A.a3_any() if not A.is_superadditive(g)]
+    for k in range(4 if quick else 16):
+        g = nonsa3[(211 * (seed + 1) + 733 * k) % len(nonsa3)]
+        us.append(("env", 3, f"nonsa#{k}", g, ("superadditive", "superadditive_cached", "sam_apx_1")[k % 3], gaps.NAMES[k % 4]))
+    any4 = A.a4_any_sample()
+    for k in range(3 if quick else 12):
+        g = any4[(37 * (seed + 1) + 101 * k) % len(any4)]
+        pairs = tuple(s for s in range(16) if A.popcount(s) == 2)
+        us.append(("env", 4, f"any4#{k}", g, ("superadditive", "superadditive_cached")[k % 2], "l1_norm", pairs if k % 2 else tuple(s for s in range(16) if A.popcount(s) == 3)))
+    # SAM computer on a tie-heavy 5-player K-budget game, every sequence of <= 2 operations
+    us.append(("env", 5, "budget5-3", A.budget_game(5, 3), "sam_apx_1", "l1_norm", (), 2))
     for i, g in enumerate(reps):
         if i % (90 if quick else 18) == seed % (90 if quick else 18):
             triples = tuple(s for s in range(16) if A.popcount(s) == 3)
@@ -147,6 +160,8 @@ def cost(u) -> float:
     if u[0] == "wc6":
         return 4000
     if u[0] == "env":
+        if u[1] == 5:
+            return 5000
         return (2000 if not (len(u) > 6 and u[6]) else 100) if u[1] == 4 else 1
     w = {"superadditive": 3, "superadditive_cached": 1.5, "sam_apx_1": 3, "sam_apx_10": 10, "sam_apx_100": 5, "sam_apx_1000": 50}
     return (1 if u[1] == 3 else 1000 if u[1] == 4 else 300 * (u[1] - 4)) * sum(w[c] for c in u[4])
